@@ -904,5 +904,5 @@ func TestEnum(t *testing.T) {
 }
 
 func TestReplay(t *testing.T) {
-	core.Replay(t, addressCheck, gridCheck, sendCheck, confirmCheck, highloadConfirmCheck, seedCheck)
+	core.Replay(t, addressCheck, gridCheck, sendCheck, confirmCheck, highloadConfirmCheck, seedCheck, lateConfirmCheck)
 }
